@@ -194,6 +194,7 @@ func c14HeightRace(c *rt.C, prop string) {
 			stalls++
 		case <-time.After(20 * time.Second):
 			c.Inconclusive("the stalled writer never reached its level draw")
+			close(release)
 			return
 		}
 		for i, m := 0, 1+r.Intn(3); i < m; i++ { // complete inserts of nodes as tall as the list lets them be
